@@ -1,9 +1,10 @@
 import VlsModel.Drv.Common
 import VlsModel.Drv.Onchain
+import VlsModel.Drv.Wallet
 /- Line-protocol models serving property C08. -/
 namespace VlsModel.Drv.C08
 open VlsModel.Drv
 
-def models : List (String × Model) := [ ("onchain", Onchain.model) ]
+def models : List (String × Model) := [ ("onchain", Onchain.model), ("wallet", Wallet.model) ]
 
 end VlsModel.Drv.C08
